@@ -650,6 +650,11 @@ def build_unit(unit, outdir):
                 idx = ttxt.rindex('}')
                 ttxt = ttxt[:idx] + '    UpdateOwnership(cw_ownable::Action),\n' + ttxt[idx:]
                 rw.rec('R1', '#[cw_ownable_execute]', 'variant UpdateOwnership(cw_ownable::Action)')
+            if it.get('ownable_query'):
+                # #[cw_ownable_query] adds this variant (cw-ownable-derive)
+                idx = ttxt.rindex('}')
+                ttxt = ttxt[:idx] + '    Ownership {},\n' + ttxt[idx:]
+                rw.rec('R1', '#[cw_ownable_query]', 'variant Ownership {}')
             if not ttxt.lstrip().startswith('pub'):
                 ttxt = 'pub ' + ttxt
             em.emit(ttxt, origin=(path, src_line))
@@ -689,6 +694,16 @@ def build_unit(unit, outdir):
         src = open(p).read()
         em.emit(src)
         collect_lemma_obligations(em, unit['name'], sp, src, base)
+    for ge in unit.get('generated_lemmas', []):
+        # R19: obligations generated from the storage constructors of the working tree (vlib/nsgen.py)
+        import nsgen
+        src, summary = nsgen.generate(ge)
+        em.emit('// ---------------- generated lemmas (R19): %s' % ge['prefix'])
+        base = em.lineno
+        em.emit(src)
+        collect_lemma_obligations(em, unit['name'], 'generated:' + ge['prefix'], src, base)
+        meta.setdefault('generated', []).append(summary)
+        meta['rules'].append({'rule': 'R19', 'src': ge['src'], 'items': len(summary['items']), 'namespaces': len(summary['namespaces'])})
     for pt in em.parts:
         em.emit('// ---------------- %%opt split: %s proves a subset of the ensures of %s over the same extracted body' % (pt['part'], pt['fn']))
         em.emit('mod %s_mod {' % pt['part'])
